@@ -36,7 +36,9 @@ claim("C15", "proof",
       "the checker's model, and every reachable (state, balanced-depth class) configuration is crossed with every token "
       "class (kind x distinguished value); predicate semantics and the selection rule of Pattern.consume come from the "
       "repo's source on every run. The space is finite and enumerated completely (quick: depth classes 0,1,>=2; "
-      "thorough additionally 0,1,2,>=3).",
+      "thorough additionally 0,1,2,>=3). The selection rule is observed by evaluating Pattern.consume on a state, transitions and an "
+      "automaton built by the repo's own constructors, for all 32 two-transition scenarios, and again for all 256 pairs (another "
+      "attempt over the same automaton consumed an item first): the outcome never depends on the earlier attempt.",
       "Trusted: pygments kind sub-trees are disjoint; the engine's construction has Thompson/subset shape (C13-R1/R3); "
       "CPython ast. Two equal stateful atoms in one expression are not modelled (ANALYSIS-ERROR, reported by C06).",
       "DESIGN.md 4/C15")
@@ -46,7 +48,9 @@ claim("C13", "other",
       "Bounded-exhaustive: for every pattern tree of a bounded family over {a, b} (quick 190 trees incl. targeted depth 3; thorough the "
       "full depth-3 family of 1752) the automaton built by the interpreted engine is deterministic and language-equivalent to the "
       "reference; match reports exactly the words of the language and starts_with the shortest non-empty prefix for all sequences up "
-      "to length 3. Plus: every edge-following recursion carries a threaded visited guard; predicate __eq__/__hash__ coherence. "
+      "to length 3. Plus: every edge-following recursion carries a threaded visited guard; predicate equality evaluated on instances of "
+      "every concrete predicate class (same arguments: equal and same hash, different arguments that accept() reads: unequal, never equal "
+      "across classes, equal => same hash over the 40 states reached by accept() on up to three tokens; hash modelled injectively). "
       "Patterns beyond the family and stateful predicates (C15) are not covered by this check.",
       "Trusted: sa.absint's semantics of the Python subset; reference Thompson/subset construction of the checker.",
       "DESIGN.md 4/C13, 12.3")
@@ -65,12 +69,15 @@ claim("C14", "other",
 
 claim("C06", "other",
       "abstract evaluation of Pattern.consume over all two-transition scenarios and of the engine under both set iteration orders; effect analysis over the call graph: set-iteration classification, global-state write inventory, nondeterministic-source reachability (AST)",
-      "Evaluated: the outcome of Pattern.consume is independent of the order of the transition list and every accept()/is_open() call "
-      "reaches a per-attempt copy (32 scenarios, exhaustive); for 40 pattern trees the repo's expression_to_nfa / nfa_to_dfa interpreted "
+      "Evaluated: the outcome of Pattern.consume is independent of the order of the transition list, of what an earlier attempt over the "
+      "same automaton did (256 scenario pairs), and every accept()/is_open() call reaches a per-attempt copy (32 scenarios, exhaustive); "
+      "Configuration.load and generate_exclude_spec hand PathSpec the same pattern list under both set iteration orders; for 40 pattern trees the repo's expression_to_nfa / nfa_to_dfa interpreted "
       "with every set iterated in the opposite order give a deterministic automaton of the same language, and find_all the same "
       "matches. Structural on every function reachable from scan_file / scan_path / check_command (implicit calls through special "
       "methods, properties and functions passed as values included): set iterations outside the engine are order-insensitive, "
-      "nothing writes module/class level state except the State id counter, nondeterministic sources reach only uuid/timestamp, no "
+      "nothing writes module/class level state except the State id counter and memos whose key contains every input of the stored value "
+      "(inputs by access path, through locals and control dependence; a key that is a function of an input - len, str - does not count; "
+      "the dictionary must start empty), nondeterministic sources reach only uuid/timestamp, no "
       "expression has two equal stateful atoms.",
       "Trusted: pygments determinism; CHA over-approximates dynamic dispatch by method name. File listing order of os.walk is outside the property.",
       "DESIGN.md 4/C06, 13")
@@ -80,7 +87,8 @@ claim("C08", "other",
       "Round trip evaluated: every string field carries a distinct tag plus quote, backslash, newline, tab, control, non-ASCII and U+2028 "
       "characters, every number is distinct; pretty and compact documents are valid JSON and parse to the same value; the re-read report "
       "equals the written one (version, identifier, root, repository, files in order with checksum, language, line total, measurements, "
-      "totals, folder profiles); re-writing reproduces the document up to the timestamp; with/without repository, version string/null. "
+      "totals, folder profiles); re-writing reproduces the document up to the timestamp; with/without repository and with a repository of "
+      "empty strings, version string/null; two of the files share a checksum but differ in language and functions. "
       "Plus structural: restoration without fallback, no shared mutable parse result. String classes not represented are not covered.",
       "Trusted: json.dumps/json.loads; sa.absint's semantics of the Python subset.",
       "DESIGN.md 4/C08, 12.3")
@@ -102,7 +110,7 @@ claim("C10", "other",
       "file-system operations of a first scan and of a re-scan are recorded and every state an interruption can leave is generated from "
       "them - after each operation, each write cut after every character (quick: every seventh offset and both ends) - plus structural "
       "faults: empty, not JSON, other JSON types, undecodable bytes, every key of every level missing, every value replaced by null / a "
-      "string or number / a list / an object, directory without document, without or with empty marker files; from each state, and "
+      "string or number / a list / an object, every integer replaced by true, 1.0 and its float (equal under ==, other JSON type), directory without document, without or with empty marker files; from each state, and "
       "from every state reached (closure = interleavings of faults and scans), the next scan completes, writes exactly the fresh-scan "
       "document and leaves document and both markers. Two genuine defects found by this rule were repaired (d97359d, 2d84a53). Larger "
       "trees, OSError on the read and concurrent scans are not covered.",
@@ -127,7 +135,7 @@ claim("C03", "other",
       "without lexer, an unsupported language, hidden and excluded entries, reached as root, relative root, sub-directory, file inside "
       "and outside the working directory (a sibling whose name extends the working directory's): no exception escapes; block matching "
       "raises nothing on any sequence over {open, close, other} up to length 4; every header pattern has a mandatory Name atom; the "
-      "ambiguity raise is unreachable (exhaustive, as C15); every while loop has a variant and every recursion is admitted or guarded. "
+      "ambiguity raise is unreachable (exhaustive, as C15, including attempts that follow another attempt on the same automaton); every while loop has a variant and every recursion is admitted or guarded. "
       "That no other subscript/.index in the language modules raises on real token streams is NOT decided.",
       "Trusted: the virtual file system's model of pathlib / os.walk / open; latin-1 is total; pygments lexers terminate; sa.absint.",
       "DESIGN.md 4/C03, 13")
@@ -137,9 +145,9 @@ claim("C07", "other",
       "Agreement of the redundant views: LanguageTotals.add evaluated symbolically (files += 1, loc += entry.loc, functions += len(ms), "
       "hard/unmaintainable += count-profile cells 2/3), ScanTotals.total_X on two generic language totals, merge_profiles on symbolic "
       "cells, one bucket per function (C02's evaluation); a codebase built through add_file from files at several depths (one-character "
-      "folder, a folder sorting before './', folders without files) and aggregated: language totals, folder registration and every "
+      "folder, a folder sorting before './', folders without files, names in decomposed Unicode form) and aggregated: language totals, folder registration and every "
       "folder profile equal the reference; a new ScanTotals / LanguageTotals / Codebase is unaffected by an earlier filled instance "
-      "(defaults and class bodies evaluated once, as Python does). Unusual path strings are not decided.",
+      "(defaults and class bodies evaluated once, as Python does). Path strings beyond these classes are not decided.",
       "Trusted: CPython ast; sa.absint; C02-R1 category boundaries.",
       "DESIGN.md 4/C07, 13")
 
@@ -149,7 +157,7 @@ claim("C12", "other",
       "that directory; named as a file, every file scan analyses is checked and every excluded or unsupported one is not; for the same "
       "file both hand lex the same lexer, decoded text and filter_comments=False and hand scan_file lex's result and the registered "
       "language; check lists exactly the measured functions longer than 30 lines, longest first, as the objects scan_file returned; "
-      "format_measurement prints line, column, length and name of its measurement. Printed text equality at run time is not decided.",
+      "format_measurement prints path, line, column, length and name of its measurement and hands the path to no markup parser. Printed text equality at run time is not decided.",
       "Trusted: the virtual file system; sa.absint.",
       "DESIGN.md 4/C12, 13")
 
@@ -157,8 +165,9 @@ claim("C18", "other",
       "abstract interpretation of the overview and findings renderers on tagged reports (rich calls recorded as effects, nothing executed); first-generation role/field rules as fallback",
       "Evaluated: rows are the current report's languages by lines of code; every cell shows the figure named by its column header; "
       "figures of a language present in both reports and the totals are annotated with current - previous, signed, exactly when they "
-      "differ (equal, larger, smaller, 0->n, n->0, 0->0); text and Markdown agree cell by cell; with, without and with an empty "
-      "comparison report; findings: threshold 30, all when full or at most 10, else the first 10 and N - 10 omitted, N = 9..12, with and "
+      "differ (equal, larger, smaller, 0->n, n->0, 0->0; a language whose previous figures are all zero but its files); text and Markdown "
+      "agree cell by cell; with, without and with an empty comparison report, also after another ScanTotals was filled in the same "
+      "process; findings: threshold 30, all when full or at most 10, else the first 10 and N - 10 omitted, N = 9..12, with and "
       "without repository. Rich layout and locale grouping are not decided.",
       "Trusted: sa.absint's semantics of the Python subset and of format specs (Python's own format()).",
       "DESIGN.md 4/C18, 12.3")
@@ -169,7 +178,8 @@ claim("C19", "other",
       "table show easy+verbose, hard-to-maintain, unmaintainable and choose the verdict by unmaintainable > 0, else hard-to-maintain > 20 "
       "(8 boundary pairs, both renderers agree); the all-zero profile divides by nothing; the rounded-up terms have the form "
       "ceil(S - c), c <= 0.001; range: the remainder of independently rounded-up terms can be negative - a genuine defect of today's "
-      "tree, listed as a known finding. Accuracy within two points is not decided.",
+      "tree, listed as a known finding; quality_profile() evaluated on a code base follows it when an entry is replaced under the same "
+      "path, a file is added, or a second report is made. Accuracy within two points is not decided.",
       "Trusted: CPython ast; sa.absint; ceil/round semantics for the recognised forms.",
       "DESIGN.md 4/C19, 12.3")
 
@@ -179,7 +189,7 @@ claim("C01", "other",
       "unfolding, count_lines, Measurement construction - on a token program with a nested function followed by a statement of its "
       "parent, a one-line function, a suppressed function, comments inside and between bodies, a keyword before the name, deeper "
       "nesting and a multi-line header; names, spans, lengths and order equal the reference, with and without nested functions, with "
-      "extra comments, with headers returned out of source order. Brace matching evaluated on all sequences over {open, close, other} "
+      "extra comments, with two block-opening lines pushed 5000 columns to the right, with headers returned out of source order. Brace matching evaluated on all sequences over {open, close, other} "
       "up to length 4; the Python suite rule by the terms its comparisons relate. That exactly the functions of each real grammar are "
       "discovered (the seven extract_headers / extract_blocks on real pygments output) is NOT decided.",
       "Trusted: sa.absint's semantics of the Python subset; the stub language stands for 'headers and blocks were found correctly'.",
@@ -189,7 +199,8 @@ claim("C04", "other",
       "abstract interpretation of filter_tokens / Token.is_whitespace / Token.is_comment over kind x text classes, and of the measuring pipeline with and without extra comments (reference comparison)",
       "Partial: the filter's keep/drop table over 15 token-kind classes x 4 text classes (evaluated on instances of the repo's Token with "
       "pygments types) equals the specification; scan_file interpreted on a token program gives the same names, spans and lengths when "
-      "comment tokens are added inside bodies, between functions and inside headers (the comment-free list is what every consumer of "
+      "comment tokens are added inside bodies, between functions and inside headers, and when lines are pushed 5000 columns to the right "
+      "by leading whitespace (the comment-free list is what every consumer of "
       "scope indices works on - a consequence of the evaluated pipeline, not a separate provenance rule any more). What pygments emits "
       "after an insertion is NOT decided.",
       "Trusted: pygments token hierarchy facts (Whitespace under Text, Comment.* under Comment, empty Text tokens exist); str.isspace/strip semantics; sa.absint.",
@@ -201,7 +212,8 @@ claim("C05", "other",
       "every entry read back by the interpreted reader has loc = sum of the lengths of the measurements stored with it; sort_headers "
       "orders by (line, column) of the header's first token in the direction of its reverse parameter (key evaluated on an open term); "
       "the measuring pipeline, evaluated on a token program with headers returned out of order, lists functions in source order, each "
-      "once, parent before nested; the name token is drawn from the header's own match. Numeric bounds on real sources are NOT decided.",
+      "once, parent before nested; get_headers interpreted through the engine names each header by the first name token of its own match "
+      "with the match's (start, exclusive end). Numeric bounds on real sources are NOT decided.",
       "Trusted: sorted/list.reverse semantics; CPython ast; sa.absint; the virtual file system.",
       "DESIGN.md 4/C05, 13")
 
